@@ -82,6 +82,12 @@ type Reader struct {
 	// AfterEnd counts calls made after the end error was returned.
 	AfterEnd int
 	ended    bool
+	// Rest, when set, makes the failure transient (a read deadline that
+	// fired, a signal): the end error is returned once, the calls after it
+	// deliver Rest and then io.EOF. A caller that has been told E must not
+	// turn what follows into a packet.
+	Rest    []byte
+	restOff int
 }
 
 // Reset puts the same reader object onto a new stream (as bufio.Reader.Reset
@@ -90,6 +96,7 @@ type Reader struct {
 func (r *Reader) Reset(data []byte) {
 	r.Data, r.End, r.E, r.C, r.Pat = data, EndEOF, nil, nil, nil
 	r.Off, r.zeros, r.patZero, r.ended, r.AfterEnd, r.MixEnd = 0, 0, 0, false, 0, false
+	r.Rest, r.restOff = nil, 0
 }
 
 func (r *Reader) endErr() error {
@@ -114,6 +121,14 @@ func (r *Reader) Read(p []byte) (int, error) {
 	r.Calls++
 	if r.ended {
 		r.AfterEnd++
+		if r.Rest != nil && len(p) > 0 {
+			if r.restOff == len(r.Rest) {
+				return r.note(len(p), 0, io.EOF)
+			}
+			n := copy(p, r.Rest[r.restOff:])
+			r.restOff += n
+			return r.note(len(p), n, nil)
+		}
 		return r.note(len(p), 0, r.endErr())
 	}
 	left := len(r.Data) - r.Off
